@@ -128,7 +128,40 @@ def correspondence(ctx):
             res.nontrivial.add(core.canonical_key("c", c))
         cterms.append(fc.coq_curve_case(c, obs))
         cidx.append(c)
+    # histories on one data-set object: every fit is compared with the (stateless) model on the data as they are then
+    hists = [c for c in corpus if c["kind"] == "history"]
+    while len(hists) < ctx.n(25, 300):
+        h = fc.gen_history(ctx.rng)
+        if h:
+            hists.append(h)
+    nhist = 0
+    for h in hists:
+        if not fc.history_in_domain(h):
+            continue
+        runs = fc.run_history(h)
+        if any(o.get("exn_type") == "RuntimeError" for _, _, o in runs):
+            skipped += 1
+            continue
+        nhist += 1
+        res.count("history:holder:" + h["holder"])
+        res.count("history:requests:{}".format(len(h["requests"])))
+        for st in h["steps"]:
+            res.count("history:step:" + st[0])
+        for k, cur, obs in runs:
+            res.evaluations += 1
+            if _nonfinite(obs):
+                res.disagreements.append({"name": "non-finite number in a fit result (history)", "kind": "history", "case": h})
+                break
+            if k > 0:
+                res.nontrivial.add(core.canonical_key("h", [h, k]))
+            if cur["kind"] == "poly":
+                pterms.append(fc.coq_poly_case(cur, obs))
+                pidx.append(h)
+            else:
+                cterms.append(fc.coq_curve_case(cur, obs))
+                cidx.append(h)
     res.traces = res.evaluations
+    res.extra["histories"] = nhist
     ctx.notes.append("curve fits skipped because scipy did not converge: {}".format(skipped))
     res.rule = ("polynomial stream: model in {linear, quadratic, polynomial deg 1-5} given as string or FitModel member, "
                 "n = deg+2 .. deg+6 (+ extra when an x-range is used) distinct dyadic x in random order, y = polynomial + bounded "
@@ -138,7 +171,11 @@ def correspondence(ctx):
                 "length, non-real, too few selected points, empty selection, too few points). curve stream: user model a*x^2+b*x, "
                 "exponential, gaussian with x-uncertainty none / common / per point, 20 % noise-free. Compared inside Coq: exception "
                 "class, recorded polyfit x / y / deg / w, parameters, uncertainties, covariance vs the certified Q solver; recorded "
-                "curve_fit sigma of each pass, numerical_derivative points and (user model) values. non-trivial = accepted polynomial "
+                "curve_fit sigma of each pass, numerical_derivative points and (user model) values. history stream: on ONE XYDataSet "
+                "(q.fit(ds) / ds.fit) or one MeasurementArray pair: fit, edit in place (y-uncertainties common -> per point, rescaled, "
+                "some changed; x-uncertainties; a y value), fit the same request again, optionally alternating with a second request "
+                "(other x-range / degree / model); EVERY fit of the history is compared like a single fit on the data as they are at "
+                "that call. non-trivial = accepted polynomial "
                 "fit with an x-range or y-uncertainties, or a two-pass curve fit (distinct by content)")
     res.samples = [polys[0], curves[0]]
     shards, index = [], []
@@ -159,14 +196,14 @@ def correspondence(ctx):
             case = (pidx if kind == "poly" else cidx)[base + i]
             res.disagreements.append({
                 "name": "Model.Fit.fit_poly_raw vs q.fit (polynomial models)" if kind == "poly"
-                else "Model.Fit.curve_fit_sigmas vs q.fit (curve_fit models)", "kind": kind, "case": case})
+                else "Model.Fit.curve_fit_sigmas vs q.fit (curve_fit models)", "kind": case["kind"], "case": case})
     return res
 
 
 # ---- the property-level oracle (independent of the Coq model) ---------------------------------------------------------
-def check_poly_oracle(case):
+def check_poly_oracle(case, obs=None):
     """exact weighted least squares over the points with low <= x < high; parameters highest power first"""
-    obs = fc.run_case(case)
+    obs = obs or fc.run_case(case)
     if obs["exn"] is not None:
         if case.get("malformed"):
             return None
@@ -201,8 +238,8 @@ def chi2_ref(model, params, xs, ys, ss):
     return sum(((y - fc.ref_model(model, params, x)) / s) ** 2 for x, y, s in zip(xs, ys, ss))
 
 
-def check_curve_oracle(case):
-    obs = fc.run_case(case)
+def check_curve_oracle(case, obs=None):
+    obs = obs or fc.run_case(case)
     if obs.get("exn_type") == "RuntimeError":
         return None
     if obs["exn"] is not None:
@@ -217,7 +254,16 @@ def check_curve_oracle(case):
     has_xerr = any(e > 0 for e in xe)
     has_yerr = any(e > 0 for e in ye)
     # the sigma that the property prescribes
-    if has_xerr:
+    grad_tol = 1e-4      # above the convergence tolerance of the optimiser (ftol = xtol = 1e-8 on very uneven weights)
+    if not calls:
+        # no optimiser call was observed for this fit (a remembered result?): judge the returned parameters
+        # against the sigma of the CURRENT data, with the slope of the returned curve
+        if has_xerr:
+            ss = [math.sqrt(sy ** 2 + (fc.ref_slope(model, params, x) * sx) ** 2) for x, sx, sy in zip(xs, xe, ye)]
+            grad_tol = 1e-3
+        else:
+            ss = ye if has_yerr else [1.0] * len(xs)
+    elif has_xerr:
         if len(calls) != 2:
             return "x-uncertainties are present but curve_fit was called {} time(s)".format(len(calls))
         p1 = calls[0]["popt"]
@@ -251,7 +297,7 @@ def check_curve_oracle(case):
         gk = [fc.ref_grad(model, params, x)[k] for x in xs]
         scale = sum(2 * (abs(y) + abs(fc.ref_model(model, params, x))) / s ** 2 * abs(g)
                     for x, y, s, g in zip(xs, ys, ss, gk)) or 1.0
-        if abs(grad) > 1e-5 * scale:
+        if abs(grad) > grad_tol * scale:
             return ("d chi2 / d parameter {} = {!r} at the returned parameters {} (scale {!r}): not a stationary point of "
                     "sum(((y - f(x; p)) / s)^2)".format(k, grad, params, scale))
     if case.get("noise_free"):
@@ -276,7 +322,23 @@ def check_curve_oracle(case):
     return None
 
 
+def check_history_oracle(case):
+    """every fit of a history on one data-set object must be right for the data AS THEY ARE at that call"""
+    if not fc.history_in_domain(case):
+        return None
+    nfit = 0
+    for k, cur, obs in fc.run_history(case):
+        nfit += 1
+        why = check_poly_oracle(cur, obs) if cur["kind"] == "poly" else check_curve_oracle(cur, obs)
+        if why:
+            return "fit number {} on the same data-set object (step {}, after in-place edits {}): {}".format(
+                nfit, k, [st[0] for st in case["steps"][:k] if st[0] != "fit"], why)
+    return None
+
+
 def check_oracle(case):
+    if case["kind"] == "history":
+        return check_history_oracle(case)
     if not fc.in_domain(case):
         return None
     return check_poly_oracle(case) if case["kind"] == "poly" else check_curve_oracle(case)
@@ -286,7 +348,11 @@ def _fresh_cases(ctx):
     rng = ctx.rng
     while True:
         r = rng.random()
-        if r < 0.6:
+        if r < 0.3:
+            c = fc.gen_history(rng)
+            if c:
+                yield c
+        elif r < 0.7:
             c = fc.gen_poly_case(rng)
             if fc.well_posed_poly(c):
                 yield c
@@ -312,7 +378,14 @@ def search(ctx, suspects, budget):
         why = check_oracle(case)
         if why:
             first = fc.signature(why)
-            small = fc.shrink_case(case, lambda c: fc.signature(check_oracle(c)) == first)
+            shrink = fc.shrink_history if case["kind"] == "history" else fc.shrink_case
+            small = shrink(case, lambda c: fc.signature(check_oracle(c)) == first)
+            if small["kind"] == "history" and [st[0] for st in small["steps"]] == ["fit"]:
+                # no history is needed: report the plain single fit
+                single = dict(fc.history_states(small)[0][2])
+                single.pop("history_step", None)
+                if check_oracle(single):
+                    small = fc.shrink_case(single, lambda c: check_oracle(c) is not None)
             why = check_oracle(small) or why
             kind = why.split(" ")[0] + ":" + small["kind"]
             sig = (small["kind"], fc.signature(why))
